@@ -68,6 +68,10 @@ class Conj:
         self.terms = terms
 
 
+class _SkipRest(Exception):
+    """raised by a guarded `continue`: the remaining statements of the block it sits in are not executed on that path"""
+
+
 class KernelSym(Evaluator):
     def __init__(self, tree, fi, env, none_axes):
         super().__init__(env)
@@ -75,6 +79,7 @@ class KernelSym(Evaluator):
         self.loops = []      # (var, lo, hi)
         self.stores = []     # (target text, index tuple, value, guard stack)
         self.guards = []
+        self.frames = []     # one per enclosing loop: {"base": len(guards) at loop entry, "cont": guards added by `if c: continue` clauses}
 
     def ev_Name(self, node):
         if node.id in self.env:
@@ -183,6 +188,38 @@ class KernelSym(Evaluator):
             return v
         raise Unsupported("undecided test %s" % (norm(node) if node is not None else v))
 
+    NEGATED = {"<=": "not <=", "<": "not <", ">=": "not >=", ">": "not >", "not <=": "<=", "not <": "<", "not >=": ">=", "not >": ">"}
+
+    def ev_UnaryOp(self, node):
+        if isinstance(node.op, ast.Not):
+            v = self.ev(node.operand)
+            if isinstance(v, bool):
+                return not v
+            if isinstance(v, Cmp):
+                # `not (a <= b)`: kept as the negation of that test (NOT rewritten to a > b: the two differ when a value is NaN)
+                return Cmp(self.NEGATED[v.op], v.a, v.b)
+            raise Unsupported("negation of %s" % norm(node.operand))
+        return super().ev_UnaryOp(node)
+
+    def all_guards(self):
+        out = []
+        for f in self.frames:
+            out.extend(f["cont"])
+        return out + list(self.guards)
+
+    def _continue(self, st):
+        """`continue` under the guards pushed since the loop was entered: the rest of the loop body runs under their negation"""
+        if not self.frames:
+            raise Unsupported("continue outside a loop")
+        f = self.frames[-1]
+        local = self.guards[f["base"]:]
+        terms = [t for g in local for t in g.terms]
+        if len(terms) != 1:
+            raise Unsupported("continue under %d conditions" % len(terms))
+        t = terms[0]
+        f["cont"].append(Conj([Cmp(self.NEGATED[t.op], t.a, t.b)]))
+        raise _SkipRest()
+
     def call(self, node, func, args, kwargs):
         if isinstance(func, tuple):
             if func[0] == "builtin":
@@ -245,17 +282,29 @@ class KernelSym(Evaluator):
             lo, hi = (Poly.const(0), it[1]) if len(it) == 2 else (it[1], it[2])
             self.loops.append((st.target.id, lo, hi))
             self.env[st.target.id] = Poly.sym(st.target.id)
-            self.exec_block(st.body)
+            self.frames.append({"base": len(self.guards), "cont": []})
+            try:
+                self.exec_block(st.body)
+            except _SkipRest:
+                raise Unsupported("unconditional continue")
+            finally:
+                self.frames.pop()
             return
+        if isinstance(st, ast.Continue):
+            self._continue(st)
         if isinstance(st, ast.If):
             t = self.ev(st.test)
             if isinstance(t, bool):
-                self.exec_block(st.body if t else st.orelse)
+                self.exec_block(st.body if t else st.orelse)       # a _SkipRest from a decided branch ends the enclosing block too
                 return
             if isinstance(t, (Conj, Cmp)) and not st.orelse:
                 self.guards.append(t if isinstance(t, Conj) else Conj([t]))
-                self.exec_block(st.body)
-                self.guards.pop()
+                try:
+                    self.exec_block(st.body)
+                except _SkipRest:
+                    pass                                           # the rest of THIS body is skipped; what follows the `if` runs under the negation
+                finally:
+                    self.guards.pop()
                 return
             raise Unsupported("branch %s" % norm(st.test))
         if isinstance(st, (ast.Assign, ast.AugAssign)) and isinstance((st.targets[0] if isinstance(st, ast.Assign) else st.target), ast.Subscript):
@@ -263,7 +312,7 @@ class KernelSym(Evaluator):
             base = norm(tgt.value)
             idx = self.ev_index(tgt.slice)
             val = self.ev(st.value)
-            self.stores.append((base, idx, val, list(self.guards), isinstance(st, ast.AugAssign), st))
+            self.stores.append((base, idx, val, self.all_guards(), isinstance(st, ast.AugAssign), st))
             return
         if isinstance(st, ast.Return):
             raise ReturnValue(self.ev(st.value) if st.value is not None else None)
